@@ -331,6 +331,47 @@ def optional_attr_truthiness(m):
     return out
 
 
+def optional_entry_truthiness(m):
+    """the same for dictionary entries within one module: d['k'] = None somewhere and d['k'] = <something else> somewhere
+    else (same container name, same literal key), yet `not d['k']` / `if d['k']:` decides which state it is in"""
+    out = []
+    none_keys, other = set(), set()
+    for n in ast.walk(m.tree):
+        if isinstance(n, ast.Assign):
+            for t in n.targets:
+                if isinstance(t, ast.Subscript) and isinstance(t.value, ast.Name) and isinstance(t.slice, ast.Constant) and isinstance(t.slice.value, str):
+                    k = (t.value.id, t.slice.value)
+                    if isinstance(n.value, ast.Constant) and n.value.value is None:
+                        none_keys.add(k)
+                    elif not (isinstance(n.value, ast.Constant) and isinstance(n.value.value, bool)):
+                        other.add(k)
+    opt = none_keys & other
+    if not opt:
+        return out
+    seen = set()
+    for n in ast.walk(m.tree):
+        cands = []
+        if isinstance(n, (ast.If, ast.IfExp, ast.While)):
+            cands.append(n.test)
+        if isinstance(n, ast.UnaryOp) and isinstance(n.op, ast.Not):
+            cands.append(n.operand)
+        if isinstance(n, ast.BoolOp):
+            cands.extend(n.values[:-1] if isinstance(n.op, ast.Or) else n.values)
+        if isinstance(n, ast.Call) and dotted(n.func) == "bool" and n.args:
+            cands.append(n.args[0])
+        for c in cands:
+            if isinstance(c, ast.UnaryOp) and isinstance(c.op, ast.Not):
+                c = c.operand
+            if isinstance(c, ast.Subscript) and isinstance(c.value, ast.Name) and isinstance(c.slice, ast.Constant) and (c.value.id, c.slice.value) in opt and id(c) not in seen:
+                seen.add(id(c))
+                fn = n
+                while fn is not None and not isinstance(fn, (ast.FunctionDef, ast.AsyncFunctionDef)):
+                    fn = getattr(fn, "_parent", None)
+                if fn is not None:
+                    out.append((fn, n, "`%s` tests %s[%r] by truthiness although it is None in one state and a value (possibly 0) in another: use `is None`" % (short(n, 50), c.value.id, c.slice.value)))
+    return out
+
+
 FIXTURE = '''
 def area(w, h):
     return w * h
@@ -346,6 +387,12 @@ class R(object):
         self.cur = b
     def done(self):
         return not self.cur
+def eof(st):
+    st["cur"] = None
+def load(st, b):
+    st["cur"] = b
+def at_end(st):
+    return not st["cur"]
 def share(units):
     hdr = dict(a=1)
     for u in units:
@@ -405,7 +452,7 @@ def selfcheck():
                 return s
             return None
 
-    if len(swapped_arguments(R(), m)) != 1 or len(stale_lower_bound_guards(m)) != 1 or len(truthiness_presence(m)) != 2 or len(optional_attr_truthiness(m)) != 1 or (len(dropped_forwarding(R(), m)[0]), dropped_forwarding(R(), m)[1]) != (1, 1) or len(shared_object_in_loop(m)) != 1 or (len(length_differences(m)[0]), length_differences(m)[1]) != (1, 1) or len(last_iteration_leaks(m)) != 1 or len(split_unpacking(m)) != 1:
+    if len(swapped_arguments(R(), m)) != 1 or len(stale_lower_bound_guards(m)) != 1 or len(truthiness_presence(m)) != 2 or len(optional_attr_truthiness(m)) != 1 or (len(dropped_forwarding(R(), m)[0]), dropped_forwarding(R(), m)[1]) != (1, 1) or len(shared_object_in_loop(m)) != 1 or (len(length_differences(m)[0]), length_differences(m)[1]) != (1, 1) or len(last_iteration_leaks(m)) != 1 or len(split_unpacking(m)) != 1 or len(optional_entry_truthiness(m)) != 1:
         raise AnalysisError("bug-pattern rules no longer recognise their positive fixture")
 
 
@@ -416,7 +463,7 @@ def rule(repo, res, rid, modules):
         m = repo.mod(name)
         sw = swapped_arguments(repo, m)
         st = stale_lower_bound_guards(m)
-        tp = [(fn, n, why) for fn, n, why in truthiness_presence(m) if (name, fn.name) not in TRUTHINESS_SANCTIONED] + optional_attr_truthiness(m)
+        tp = [(fn, n, why) for fn, n, why in truthiness_presence(m) if (name, fn.name) not in TRUTHINESS_SANCTIONED] + optional_attr_truthiness(m) + optional_entry_truthiness(m)
         df, _fw = dropped_forwarding(repo, m)
         df = df + shared_object_in_loop(m, repo) + length_differences(m)[0] + last_iteration_leaks(m) + split_unpacking(m)
         bad = ["%s in %s (line %d)" % (why, fn.name, n.lineno) for fn, n, why in sw + df] + ["%s in %s" % (why, fn.name) for fn, n, why in st] + ["%s in %s (line %d)" % (why, fn.name, n.lineno) for fn, n, why in tp]
